@@ -44,8 +44,9 @@ func TestConcurrentProgram(t *testing.T) {
 		src, _ := os.ReadFile(filepath.Join(dir, "cmd/main.go"))
 		t.Fatalf("build: %v\n%s\n%s", err, out, src)
 	}
+	preempt := 0
 	run := func(seed uint64, mp, sp string, args ...string) (string, int) {
-		st := simrt.Step{Seed: seed, MapPolicy: mp, SchedPolicy: sp, JournalPath: filepath.Join(dir, "j.json"), OutDir: dir, StepBudget: 2_000_000}
+		st := simrt.Step{Seed: seed, PreemptEvery: preempt, MapPolicy: mp, SchedPolicy: sp, JournalPath: filepath.Join(dir, "j.json"), OutDir: dir, StepBudget: 2_000_000}
 		b, _ := json.Marshal(st)
 		sp2 := filepath.Join(dir, "step.json")
 		os.WriteFile(sp2, b, 0o644)
@@ -94,6 +95,31 @@ func TestConcurrentProgram(t *testing.T) {
 				t.Fatalf("seed %d lost an item: %s", seed, a)
 			}
 		}
+	}
+	// statement-level pre-emption: off, the unsynchronised counter is exact under
+	// every policy; on, some seed loses updates, and the same seed always does
+	lost := 0
+	for seed := uint64(1); seed <= 20; seed++ {
+		preempt = 0
+		if a, _ := run(seed, "sorted", "random"); !strings.Contains(a, "racy exact") {
+			t.Fatalf("seed %d: pre-emption between statements without being asked for: %s", seed, a)
+		}
+		preempt = 3
+		a, _ := run(seed, "sorted", "random")
+		b, _ := run(seed, "sorted", "random")
+		if a != b {
+			t.Fatalf("seed %d not deterministic under statement pre-emption", seed)
+		}
+		if strings.Contains(a, "racy lost-updates") {
+			lost++
+		}
+		if !strings.Contains(a, "select-sum 55 5") || !strings.Contains(a, "beats 4") {
+			t.Fatalf("seed %d: semantics broken under statement pre-emption: %s", seed, a)
+		}
+	}
+	preempt = 0
+	if lost == 0 {
+		t.Fatalf("statement-level pre-emption never exposed the lost update")
 	}
 	if len(seen) < 10 {
 		t.Fatalf("only %d distinct executions over 40 seeds", len(seen))
